@@ -4,21 +4,36 @@
    Nodes are indexed by creation order; `deps` is NodeData.dependencies, `dependents` the weak
    dependents list in registration order, `visited`/`changed` the two flags, `fire` the firing slot
    that the update closure writes (for raw nodes: a rule F of the dependencies' firings).
-   `done` is a ghost flag (not present in the code, never read by the algorithm) used by the proofs. *)
+   `done` is a ghost flag (not present in the code, never read by the algorithm) used by the proofs.
+
+   DYNAMIC DEMANDS.  An update closure may, from inside its own update, ask the engine to bring another
+   node up to date as a dependency: `sodium_ctx.update_node2(target, true)` (/repo/src/impl_/cell.rs
+   `switch_c`: the outer node demands the update stream of the cell that the outer cell of cells just
+   fired).  The model has a second, dynamic stage of dependency visiting: after the static dependencies
+   have been visited, the demand function `Dm n ins` (a function of the node and of the firings `ins` of
+   its static dependencies) gives the nodes demanded now; the unvisited ones are visited exactly like
+   static dependencies; then the update runs iff some static dependency or some demanded node changed,
+   and the rule receives both lists of firings.  `dem` is static data of a node, like `deps`: the list
+   of its POTENTIAL demand targets (the engine never reads it; raw scripts use it to define `Dm`).
+   With `Dm = no_demands` the engine is, step for step, the engine without demands
+   (EngineSafe.update_node_no_demands). *)
 From Coq Require Import List Arith Bool.
 Import ListNotations.
 
+Definition is_some {A} (o : option A) : bool := match o with Some _ => true | None => false end.
+
 (* raw engine: nodes with deps (strong, upstream) and dependents (registration order) *)
 (* the firing slot holds a value of an arbitrary type Val (implicit argument of everything below) *)
-Record node (Val : Type) := { deps : list nat; dependents : list nat; visited : bool; done : bool; changed : bool;
-                 fire : option Val }.
+Record node (Val : Type) := { deps : list nat; dem : list nat; dependents : list nat;
+                 visited : bool; done : bool; changed : bool; fire : option Val }.
 Arguments deps {Val} _.
+Arguments dem {Val} _.
 Arguments dependents {Val} _.
 Arguments visited {Val} _.
 Arguments done {Val} _.
 Arguments changed {Val} _.
 Arguments fire {Val} _.
-Arguments Build_node {Val} _ _ _ _ _ _.
+Arguments Build_node {Val} _ _ _ _ _ _ _.
 Definition graph (Val : Type) := list (node Val).
 Record st (Val : Type) := { g : graph Val; queue : list nat; log : list nat (* update executions, newest first *) }.
 Arguments g {Val} _.
@@ -26,29 +41,39 @@ Arguments queue {Val} _.
 Arguments log {Val} _.
 Arguments Build_st {Val} _ _ _.
 
-Definition get {Val} (gr : graph Val) (n : nat) : node Val := nth n gr {| deps := []; dependents := []; visited := true; done := true; changed := false; fire := None |}.
+Definition get {Val} (gr : graph Val) (n : nat) : node Val :=
+  nth n gr {| deps := []; dem := []; dependents := []; visited := true; done := true; changed := false; fire := None |}.
 Fixpoint set {Val} (gr : graph Val) (n : nat) (x : node Val) : graph Val :=
   match gr, n with [], _ => [] | _ :: t, 0 => x :: t | y :: t, S k => y :: set t k x end.
 
-(* update rule of a derived node: a function of the dependencies' firings; must be None if none fired *)
-Definition rule (Val : Type) := nat -> list (option Val) -> option Val.
+(* update rule of a derived node: a function of the firings of the static dependencies and of the firings
+   of the nodes demanded in this transaction; must be None if none fired *)
+Definition rule (Val : Type) := nat -> list (option Val) -> list (option Val) -> option Val.
+(* demand function: the nodes that node n demands, given the firings of its static dependencies *)
+Definition demand (Val : Type) := nat -> list (option Val) -> list nat.
+Definition no_demands {Val} : demand Val := fun _ _ => [].
 
 Section E.
   Context {Val : Type}.
   Variable F : rule Val.
+  Variable Dm : demand Val.
   Variable orig : bool.   (* true = algorithm before repair F1: always walk dependents *)
 
-  Definition run_update (s : st Val) (n : nat) : st Val :=
+  Definition fires_of (gr : graph Val) (l : list nat) : list (option Val) := map (fun d => fire (get gr d)) l.
+
+  (* the update closure of n, having demanded the nodes ex *)
+  Definition run_update (s : st Val) (n : nat) (ex : list nat) : st Val :=
     let x := get (g s) n in
-    let r := F n (map (fun d => fire (get (g s) d)) (deps x)) in
-    let x' := {| deps := deps x; dependents := dependents x; visited := visited x; done := done x;
+    let r := F n (fires_of (g s) (deps x)) (fires_of (g s) ex) in
+    let x' := {| deps := deps x; dem := dem x; dependents := dependents x; visited := visited x; done := done x;
                  changed := match r with Some _ => true | None => changed x end;
                  fire := match r with Some _ => r | None => fire x end |} in
     {| g := set (g s) n x'; queue := queue s; log := n :: log s |}.
 
   Definition mark (s : st Val) (n : nat) (v d : bool) : st Val :=
     let x := get (g s) n in
-    {| g := set (g s) n {| deps := deps x; dependents := dependents x; visited := v; done := d; changed := changed x; fire := fire x |};
+    {| g := set (g s) n {| deps := deps x; dem := dem x; dependents := dependents x; visited := v; done := d;
+                           changed := changed x; fire := fire x |};
        queue := queue s; log := log s |}.
 
   Fixpoint update_node (fuel : nat) (s : st Val) (n : nat) (as_dep : bool) : option (st Val) :=
@@ -56,19 +81,27 @@ Section E.
       if visited (get (g s) n) then Some s else
       let s1 := mark s n true false in
       let ds := deps (get (g s) n) in
+      (* stage 1: the static dependencies *)
       match fold_left (fun acc d => match acc with None => None | Some a =>
                           if visited (get (g a) d) then Some a else update_node f a d true end) ds (Some s1) with
       | None => None
       | Some s2 =>
-        let s3 := if existsb (fun d => changed (get (g s2) d)) ds then run_update s2 n else s2 in
-        let s4 := mark s3 n true true in
-        if changed (get (g s4) n) then
-          if as_dep && negb orig then
-            Some {| g := g s4; queue := queue s4 ++ dependents (get (g s4) n); log := log s4 |}
-          else
-            fold_left (fun acc m => match acc with None => None | Some a => update_node f a m false end)
-                      (dependents (get (g s4) n)) (Some s4)
-        else Some s4
+        (* stage 2: the nodes demanded now, visited exactly like dependencies *)
+        let ex := Dm n (fires_of (g s2) ds) in
+        match fold_left (fun acc d => match acc with None => None | Some a =>
+                            if visited (get (g a) d) then Some a else update_node f a d true end) ex (Some s2) with
+        | None => None
+        | Some s2' =>
+          let s3 := if existsb (fun d => changed (get (g s2') d)) (ds ++ ex) then run_update s2' n ex else s2' in
+          let s4 := mark s3 n true true in
+          if changed (get (g s4) n) then
+            if as_dep && negb orig then
+              Some {| g := g s4; queue := queue s4 ++ dependents (get (g s4) n); log := log s4 |}
+            else
+              fold_left (fun acc m => match acc with None => None | Some a => update_node f a m false end)
+                        (dependents (get (g s4) n)) (Some s4)
+          else Some s4
+        end
       end
     end.
 
